@@ -42,6 +42,9 @@ d1 = sh("cd %s && timeout 300 /venv/bin/python %s/demo.py" % (wt, out), env=env)
 meta["demo_with_change_exit"] = d1.returncode
 meta["demo_with_change_tail"] = d1.stdout[-300:]
 if not nosuite:
+    # the demonstrations may leave git-ignored files behind (package config written through the settings object): the suite runs on a pristine tree + patch
+    sh("git -C %s checkout -- . && git -C %s clean -fdxq" % (wt, wt))
+    sh("git -C %s apply %s/patch.diff" % (wt, out))
     s = sh("cd %s && flock /tmp/repo-suite.lock timeout 1500 /venv/bin/python -m pytest -q -p no:cacheprovider --timeout=900 --continue-on-collection-errors 2>&1 | tail -8" % wt)
     m = re.search(r"(\d+) failed, (\d+) passed", s.stdout)
     meta["suite_with_change"] = s.stdout.strip().split("\n")[-1]
